@@ -140,9 +140,10 @@ def fieldOf (v : Val) (name : S) : Option Val :=
 
 def setField (v : Val) (name : S) (x : Val) : Val :=
   match v with
-  | .struct fs => .struct (fs.map (fun (n, old) => if n == name then (n, x) else (n, old)))
-  | .absent => .struct [(name, x)]      -- a write into a slot that does not exist: no longer `absent`, the caller panics
-  | o => o
+  | .struct fs =>
+    if fs.any (fun p => p.1 == name) then .struct (fs.map (fun (n, old) => if n == name then (n, x) else (n, old)))
+    else .struct (fs ++ [(name, x)])
+  | _ => .struct [(name, x)]      -- (for `absent`: a write into a slot that does not exist; the caller panics)
 
 def Val.isAbsent : Val → Bool
   | .absent => true
@@ -254,14 +255,7 @@ mutual
         let l ← freshLoc
         pure (.ptr l v)
       | .list te hasMake hasGuard elem =>
-        let elems : Option (List Val) := match src with
-          | .nil => if hasGuard then none else some []
-          | .slice _ vs => some vs
-          | .arr vs => some vs
-          | _ => some []
-        match elems with
-        | none => pure old
-        | some vs => do
+        let run (vs : List Val) : E Val := do
           if hasMake then
             let out ← evalElems p fuel fr te elem vs 0
             if vs.isEmpty then pure (.slice .none []) else do
@@ -276,6 +270,11 @@ mutual
             else match old with
               | .slice l xs => pure (.slice l (out.take xs.length ++ xs.drop vs.length))
               | o => pure o
+        match src with
+        | .nil => if hasGuard then pure old else run []
+        | .slice _ vs => run vs
+        | .arr vs => run vs
+        | _ => stuckE "list: slice or array expected"
       | .mapc tk tv key val =>
         match src with
         | .nil => pure old
